@@ -386,3 +386,8 @@ def finalize(ctx):
         ctx.inconc("the lowering cache was never hit: histories did not exercise the shared state")
     if ctx.counters.get("dedup_hits", 0) == 0:
         ctx.inconc("no singleton de-duplication hit was observed")
+
+
+RULE += (
+    " chunks='auto' leaves: a rebuild's chunks must equal what the configuration in force resolves to, whatever was built earlier."
+)
